@@ -43,7 +43,9 @@ Inductive case :=
   | CFiles (from : list (string * string)) (pattern : string) (matched : list string)
            (gets : list (string * string)) (lines : list (string * option (list string)))
            (config : list (string * string)) (secrets : list (string * string))
-           (glob_gets : list (string * string)).
+           (glob_gets : list (string * string))
+           (lib_matched : list string)      (* round 4: the names gobwas/glob itself matches (Compile(pattern, '/'), "**" when invalid) *)
+           (globbed : list string).         (* round 4: the names of the real Glob(pattern), sorted *)
 
 Fixpoint list_eqb {A} (f : A -> A -> bool) (l1 l2 : list A) : bool :=
   match l1, l2 with
@@ -152,8 +154,9 @@ Definition case_ok (c : case) : bool :=
   | CPipe o cn crds keys failed rendered splits heads sorted_keys ob =>
       list_eqb String.eqb (sort_templates keys) sorted_keys &&
       result_agrees (run_pipeline failed rendered splits heads o cn crds (@rev _) (@rev _) keys) ob
-  | CFiles from pattern matched gets lines config secrets glob_gets =>
+  | CFiles from pattern matched gets lines config secrets glob_gets lib_matched globbed =>
       let f := new_files from in
+      list_eqb String.eqb (sort_strings (map fst (files_glob (table_match lib_matched) pattern f))) globbed &&
       let g := files_glob (table_match matched) pattern f in
       forallb (fun kv => String.eqb (files_get (fst kv) f) (snd kv)) gets &&
       forallb (fun kv => match files_lines (fst kv) f, snd kv with
